@@ -150,6 +150,8 @@ ACTS = {
 	"CELU": lambda: torch.nn.CELU(), "Mish": lambda: torch.nn.Mish(),
 	"LogSigmoid": lambda: torch.nn.LogSigmoid(), "PReLU": lambda: torch.nn.PReLU(),
 	"Custom": lambda: CustomAct(),
+	# softmax over the dimension torch picks implicitly (0 for a 3-D activation)
+	"SoftmaxImplicit": lambda: torch.nn.Softmax(),
 }
 
 
